@@ -3,6 +3,7 @@ package main
 import (
 	"fmt"
 	"net"
+	"os"
 	"sort"
 	"strconv"
 	"strings"
@@ -113,12 +114,16 @@ func pairCase(c *h.Case, k int) {
 	c.Data["phases"], c.Data["proxies"], c.Data["mux"], c.Data["interval_s"], c.Data["timeout_s"], c.Data["child_server"], c.Data["heartbeat_scope"], c.Data["pool"] =
 		phases, e.n, e.mux, e.pair.I, e.pair.T, e.useChild, scope, pool
 
-	ports := pa.Block(6) // server, relay, tcp proxy 0, tcp proxy 1, (spare), visitor bind port
 	scopeLine := ""
 	if scope {
 		scopeLine = "auth.additionalScopes = [\"HeartBeats\"]\n"
 	}
-	e.srvText = fmt.Sprintf(`
+	var ports []int
+	var err error
+	up := false
+	for attempt := 0; attempt < 4 && !up; attempt++ {
+		ports = pa.Block(5) // server, relay, tcp proxy 0, tcp proxy 1, visitor bind port
+		e.srvText = fmt.Sprintf(`
 bindAddr = "127.0.0.1"
 bindPort = %d
 auth.token = "%s"
@@ -128,16 +133,22 @@ transport.tcpMux = %v
 transport.heartbeatTimeout = %d
 transport.maxPoolCount = 2
 `, ports[0], token, scopeLine, e.mux, e.pair.T)
-	if !e.startServer() {
+		if !e.startServer(1) {
+			continue
+		}
+		e.relay, err = startFaultRelay(ports[1], fmt.Sprintf("127.0.0.1:%d", ports[0]))
+		if err != nil {
+			fmt.Fprintf(os.Stderr, "case %d: relay on port %d: %v\n", c.Idx, ports[1], err)
+			e.stopServer()
+			continue
+		}
+		up = true
+	}
+	if !up {
+		run.Inconclusive("C: frps / relay did not start")
 		return
 	}
 	defer e.stopServer()
-	var err error
-	e.relay, err = startFaultRelay(ports[1], fmt.Sprintf("127.0.0.1:%d", ports[0]))
-	if err != nil {
-		run.Inconclusive("C: relay did not start")
-		return
-	}
 	defer e.relay.Close()
 	e.ident = fmt.Sprintf("BK%d", c.Idx)
 	e.be, err = h.StartTCPBackend(0, h.IdentEcho(e.ident))
@@ -177,8 +188,8 @@ transport.heartbeatTimeout = %d
 	}
 	if e.n >= 3 {
 		// a visitor of the same client to one of its own stcp proxies: the visitor path must heal as well
-		e.visitorPort = ports[5]
-		fmt.Fprintf(&sb, "[[visitors]]\nname = \"v0\"\ntype = \"stcp\"\nserverName = \"p002\"\nsecretKey = \"k\"\nbindAddr = \"127.0.0.1\"\nbindPort = %d\n", ports[5])
+		e.visitorPort = ports[4]
+		fmt.Fprintf(&sb, "[[visitors]]\nname = \"v0\"\ntype = \"stcp\"\nserverName = \"p002\"\nsecretKey = \"k\"\nbindAddr = \"127.0.0.1\"\nbindPort = %d\n", ports[4])
 	}
 	sort.Strings(e.names)
 	t0 := h.Now()
@@ -224,25 +235,23 @@ transport.heartbeatTimeout = %d
 	}
 }
 
-func (e *cEnv) startServer() bool {
+// startServer starts frps (tries: how often binding its own, just released, port is retried).
+func (e *cEnv) startServer(tries int) bool {
 	var err error
-	if e.useChild {
-		e.child, err = h.StartChild(prop, "frps", e.srvText)
-		if err != nil {
-			run.Inconclusive("C: child frps did not start")
-			return false
+	for i := 0; i < tries; i++ {
+		if e.useChild {
+			e.child, err = h.StartChild(prop, "frps", e.srvText)
+		} else {
+			e.srv, err = h.StartServerText(prop, e.srvText)
 		}
-		return true
-	}
-	for i := 0; i < 50; i++ {
-		e.srv, err = h.StartServerText(prop, e.srvText)
 		if err == nil {
 			return true
 		}
+		e.child, e.srv = nil, nil
 		time.Sleep(100 * time.Millisecond)
 	}
+	fmt.Fprintf(os.Stderr, "case %d: frps did not start: %v\n", e.c.Idx, err)
 	e.c.Ev("server-start-failed", "err", err.Error())
-	run.Inconclusive("C: frps did not start")
 	return false
 }
 
@@ -344,6 +353,10 @@ func (e *cEnv) checkRate(kind string, from, to int64) {
 	n, at := maxInWindow(ts, 5*time.Second)
 	e.c.Ev("attempt-rate", "phase", kind, "attempts", len(ts), "max_in_5s", n)
 	run.Count("C_outage_attempts_seen", int64(len(ts)))
+	if n > 10 && lag.Max(at, at+int64(5*time.Second)) > time.Second {
+		run.Inconclusive("C: observer stalled while counting attempts")
+		return
+	}
 	if n > 10 {
 		e.c.Violation("retry-tight-loop", "%s: %d connection attempts in the 5 s window starting at t=%.3f s while the server was unreachable (limit 10)", kind, n, secs(at))
 	}
@@ -584,7 +597,7 @@ func (e *cEnv) phase(ph string) bool {
 		if !bad && e.srv != nil {
 			// the dead session's ports must be free again while nobody can log in
 			var still int
-			if !waitUntil(10*time.Second, func() bool {
+			if !waitUntil(releaseGrace, func() bool {
 				lp := h.OwnTCPListenPorts()
 				for _, port := range e.tcpPorts {
 					if lp[port] {
@@ -594,7 +607,7 @@ func (e *cEnv) phase(ph string) bool {
 				}
 				return true
 			}) {
-				e.c.Violation("dead-session-resource-not-released:os-listener", "frps dropped the silent session of %s but port %d is still bound 10 s later", e.user, still)
+				e.c.Violation("dead-session-resource-not-released:os-listener", "frps dropped the silent session of %s but port %d is still bound %v later", e.user, still, releaseGrace)
 				bad = true
 			}
 		}
@@ -632,7 +645,8 @@ func (e *cEnv) phase(ph string) bool {
 		d := time.Duration(argN) * time.Millisecond
 		e.stopServer()
 		time.Sleep(d)
-		if !e.startServer() {
+		if !e.startServer(50) {
+			run.Inconclusive("C: frps did not start again")
 			return false
 		}
 		heal := h.Now()
@@ -650,7 +664,7 @@ func (e *cEnv) finalLedger() {
 		return
 	}
 	var diag string
-	ok := waitUntil(10*time.Second, func() bool {
+	ok := waitUntil(releaseGrace, func() bool {
 		snap := e.srv.Snapshot()
 		var mine []string
 		sessions := 0
